@@ -17,6 +17,8 @@ from vlib import sched as S
 
 ID = "C17"
 MAX_STEPS = 6000
+# library lines one thread may run between two yield points (see Harness)
+LINE_BUDGET = 20000
 MAX_STEPS_LINE = 40000
 
 
@@ -143,6 +145,15 @@ def cases(ctx):
              for _ in range(rng.randint(0, 2))]
     yield ("conc", specs, ("finite", rng.randint(0, 16), rng.randint(1, 5), 1),
            wait, rng.randint(0, 8), rng.getrandbits(32),
+           rng.choice([0.0, 0.5, 0.9]))
+  for _ in ctx.loop(400, 60000):
+    wait = rng.random() < 0.4
+    specs = [("finite", rng.randint(0, 20), rng.randint(1, 6), 1)
+             for _ in range(rng.randint(0, 2))]
+    # (chunk size, samples read before the close, stop() called before it)
+    recs = [(rng.randint(1, 6), rng.choice([0, 0, 1, 3, 6, 7, 13]),
+             rng.random() < 0.25) for _ in range(rng.randint(1, 3))]
+    yield ("rec", specs, recs, wait, rng.randint(0, 8), rng.getrandbits(32),
            rng.choice([0.0, 0.5, 0.9]))
   for _ in ctx.loop(240, 24000):
     wait = rng.random() < 0.45
@@ -280,7 +291,8 @@ def run_special(ctx, case):
   S.FakePyAudio.instances[:] = []
   flows = []
   outcome = {}
-  h = S.Harness(lazy_io, chooser, MAX_STEPS, False)
+  h = S.Harness(lazy_io, chooser, MAX_STEPS, False,
+                line_budget=LINE_BUDGET)
   with h:
     sch = h.sched
     if kind == "two":
@@ -293,6 +305,35 @@ def run_special(ctx, case):
       for aio in ((aioA, aioB) if order == "A-first" else (aioB, aioA)):
         aio.close()
         flows.append((aio, aio._pa.terminated))
+    elif kind == "rec":
+      _, specs, recs, wait, idle = case[:5]
+      aio = lazy_io.AudioIO(wait)
+      for spec in specs:
+        aio.play(make_iterable(spec), chunk_size=spec[2], channels=spec[3])
+      streams = [aio.record(chunk_size=cs) for cs, _, _ in recs]
+      recorded = []
+      for st, (cs, nread, stop_first) in zip(streams, recs):
+        recorded.append(st.take(nread) if nread else [])
+        if stop_first:
+          st.stop()
+      for _ in range(idle):
+        sch.switch("idle")
+      try:
+        aio.close()
+        outcome["close"] = "returned"
+      except Exception as exc:  # noqa
+        outcome["close"] = "%s: %s" % (type(exc).__name__, exc)
+      flows.append((aio, aio._pa.terminated))
+      outcome["recorded"] = recorded
+      if outcome["close"] != "returned":
+        # harness hygiene only: finish the recording generators here, not in
+        # the garbage collector during some later scenario
+        for st in streams:
+          try:
+            st.stop()
+            st.take(1000)
+          except Exception:  # noqa
+            pass
     else:
       _, specs, new_spec, wait, idle = case[:5]
       aio = lazy_io.AudioIO(wait)
@@ -330,9 +371,10 @@ def run_special(ctx, case):
   if h.os_threads_stuck:
     ctx.count("harness_errors")
     return True
-  if sch.aborted in ("deadlock", "step-bound"):
+  if sch.aborted in ("deadlock", "step-bound", "spin-without-yield-point"):
     ctx.violation("%s/%s-scenario" % (sch.aborted, kind), case,
                   threads=getattr(sch, "abort_state", None),
+                  spinning_at=getattr(h, "spin_at", None),
                   tail=getattr(sch, "tail", [])[-40:])
     return True
   if h.thread_errors:
@@ -353,6 +395,31 @@ def run_special(ctx, case):
       judge(ctx, case, [spec], set(), wait and spec[0] == "finite", flow,
             pa=aio._pa)
     return True
+  if kind == "rec":
+    aio, term = flows[0]
+    nrec = len(case[2])
+    ctx.count("recordings-open-at-close:%d" % nrec)
+    if any(r[1] == 0 for r in case[2]):
+      ctx.count("recording-never-read")
+    if outcome.get("close") != "returned":
+      ctx.violation("close-raises-with-open-recordings", case,
+                    error=outcome.get("close"), recordings=nrec)
+      return True
+    flow = {"terminated_at_close": [term], "play_after_close": "raised"}
+    specs = list(case[1])
+    judge(ctx, case, specs, set(range(len(specs))) if not case[3] else set(),
+          case[3], flow, pa=aio._pa, inputs=nrec)
+    pa = aio._pa
+    for j, (got, (cs, nread, _)) in enumerate(zip(outcome["recorded"],
+                                                  case[2])):
+      dev = pa.all_streams[len(specs) + j]
+      want = [S.rec_sample(dev.index, i) for i in range(nread)]
+      ctx.count("recorded-samples-compared", len(want))
+      if list(got) != want:
+        ctx.violation("recording/lost-duplicated-or-reordered", case,
+                      recording=j, got=list(got), want=want)
+        return True
+    return True
   aio, term = flows[0]
   specs_all = list(case[1])
   if outcome.get("play") == "accepted":
@@ -372,7 +439,7 @@ def run_special(ctx, case):
 def run_case(ctx, case):
   if case[0] == "free":
     return run_free(ctx, case)
-  if case[0] in ("two", "conc"):
+  if case[0] in ("two", "conc", "rec"):
     return run_special(ctx, case)
   _, specs, initial, hist, wait, style, sseed, stick, line = case
   rng = random.Random(sseed)
@@ -386,7 +453,8 @@ def run_case(ctx, case):
   handles = []
   stopped = set()
   flow = {"close_returned": False, "play_after_close": None, "drained": False}
-  h = S.Harness(lazy_io, chooser, MAX_STEPS_LINE if line else MAX_STEPS, line)
+  h = S.Harness(lazy_io, chooser, MAX_STEPS_LINE if line else MAX_STEPS, line,
+                line_budget=None if line else LINE_BUDGET)
   with h:
     sch = h.sched
     play_history(specs, initial, hist, wait, style, handles, stopped, flow,
@@ -423,7 +491,7 @@ def run_case(ctx, case):
     ctx.notes.append({"harness_error": "OS threads did not unwind", "case":
                       repr(case)[:500]})
     return True
-  if sch.aborted in ("deadlock", "step-bound"):
+  if sch.aborted in ("deadlock", "step-bound", "spin-without-yield-point"):
     halting_alive = []
     for (thread, st) in h.player_threads:
       if st.status != "done" or st.unwinding:
@@ -451,7 +519,7 @@ def run_case(ctx, case):
   return judge(ctx, case, specs, stopped, wait, flow)
 
 
-def judge(ctx, case, specs, stopped, wait, flow, pa=None):
+def judge(ctx, case, specs, stopped, wait, flow, pa=None, inputs=0):
   # ---- device log verdicts -----------------------------------------------------
   if pa is None:
     pas = S.FakePyAudio.instances
@@ -466,11 +534,21 @@ def judge(ctx, case, specs, stopped, wait, flow, pa=None):
   if flow["play_after_close"] != "raised":
     ctx.violation("play-after-close-accepted", case)
     return True
-  if pa._streams or len(pa.all_streams) != len(specs):
+  if pa._streams or len(pa.all_streams) != len(specs) + inputs:
     ctx.violation("backend/streams-left-open", case, open=len(pa._streams),
-                  opened=len(pa.all_streams), players=len(specs))
+                  opened=len(pa.all_streams), players=len(specs),
+                  recordings=inputs)
     return True
-  for i, dev in enumerate(pa.all_streams):
+  for dev in pa.all_streams[len(specs):]:        # input (recording) streams
+    if dev.closed != 1:
+      ctx.violation("input-stream/close-count", case, closed=dev.closed)
+      return True
+    if dev.calls_after_close:
+      ctx.violation("input-stream/call-after-close-or-terminate", case,
+                    calls=dev.calls_after_close)
+      return True
+    ctx.count("input-streams-checked")
+  for i, dev in enumerate(pa.all_streams[:len(specs)]):
     spec = specs[i]
     kind, length, cs, ch = spec
     if dev.closed != 1:
@@ -521,6 +599,11 @@ def finish(ctx):
   ctx.need("free-running-scenarios", 100)
   ctx.need("special:two", 100)
   ctx.need("special:conc", 100)
+  ctx.need("special:rec", 100)
+  ctx.need("recording-never-read", 30)
+  ctx.need("input-streams-checked", 100)
+  for n in (1, 2, 3):
+    ctx.need("recordings-open-at-close:%d" % n, 20)
   ctx.need("concurrent-play:accepted", 10)
   ctx.need("concurrent-play:raised", 10)
   ctx.need("distinct-interleavings", 400)
